@@ -14,6 +14,7 @@ import GrcVerif.Check03
 import GrcVerif.SfntCheck
 import GrcVerif.GlyphAttr
 import GrcVerif.PassBits
+import GrcVerif.MainSM
 namespace Grc.Driver
 
 structure State where
@@ -348,6 +349,19 @@ def cmdC14 (st : State) : Except String (List String) := do
               out := out ++ [s!"pass {p} FAIL rule {ri} (line {r.line}) has no key item: glyph string {witness} consists only of glyphs marked skippable for pass {p} yet the rule matches it"]
   return out ++ ["done"]
 
+def cmdMainSM (args : List String) : List String :=
+  match args.mapM (fun a => if a == "1" then some true else if a == "0" then some false else none) with
+  | some [x1, x2, x3, x4, x5, x6, x7, x8, x9, x10, x11, x12, x13, x14, x15] =>
+    let s : MainSM.Scn := {
+      sameInOut := x1, gdlOpens := x2, encodingOk := x3, tmpOk := x4, ppOk := x5, parseOk := x6,
+      postParseOk := x7, fontOk := x8, optsOk := x9, preCompileOk := x10, dbgFiles := x11, dbgXml := x12,
+      outOpens := x13, outWrites := x14, errFileOpens := x15 }
+    let r := MainSM.run s
+    let opName (x : MainSM.Op) : String := (toString (repr x)).replace "Grc.MainSM.Op." ""
+    let opsStr := ",".intercalate (r.ops.map opName)
+    [s!"exit={r.exit} errors={r.errors} complete={r.fontComplete} ops={opsStr}"]
+  | _ => ["bad-op"]
+
 def step (st : State) (toks : List String) : IO (State × List String) := do
   match toks with
   | [] => return (st, [])
@@ -421,6 +435,7 @@ def step (st : State) (toks : List String) : IO (State × List String) := do
     match cmdC14 st with
     | .ok ls => return (st, ls)
     | .error e => return (st, [s!"error {e}", "done"])
+  | "mainsm" :: args => return (st, cmdMainSM args)
   | ["c06"] =>
     match cmdC06 st with
     | .ok ls => return (st, ls)
